@@ -10,7 +10,7 @@ import tsparse
 import vlib
 from vlib import ToolError, log
 
-HELPERS = ["Inner", "UnitE", "DataE", "TagE", "Gen<i32>", "Pair<String>"]
+HELPERS = ["Inner", "UnitE", "DataE", "TagE", "Gen<i32>", "Pair<String>", "Deep", "Tree"]
 
 
 def program_slices(tier):
@@ -23,7 +23,7 @@ def program_slices(tier):
     sl.append(("E1", sc(["enum"], reprs, [[], ["rename_all"]], [], vsh, [[], ["untagged"], ["skip"], ["rename"]],
                         ["i32", "inner", "opt_i32"] if q else ["i32", "inner", "opt_i32", "string", "unit", "u64"], [[], ["skip"]])))
     sl.append(("E2", sc(["enum"], reprs, [[]], [], ["newtype", "struct1"], [[], ["untagged"]],
-                        ["unit", "datae", "tage", "unite", "vec_inner", "map", "tup", "gen_i32", "box_inner", "optopt", "map_i", "arr2"],
+                        ["unit", "datae", "tage", "unite", "vec_inner", "map", "tup", "gen_i32", "box_inner", "optopt", "map_i", "arr2", "deep", "vec_deep", "tree", "opt_tree"],
                         [[], ["inline"]])))
     sl.append(("E3", sc(["enum"], ["ext", "int"] if q else reprs,
                         [["rename_all"], ["rename_all_kebab"], ["rename_all_fields"], ["rename_all", "rename_all_fields"], ["rename_all_upper"]],
@@ -32,7 +32,7 @@ def program_slices(tier):
                         [[], ["tag"], ["rename_all"], ["optional_fields"], ["rename"], ["tag", "rename_all"], ["rename_all_kebab"]],
                         ["named"], [], [],
                         ["i32", "u64", "string", "unit", "opt_i32", "opt_inner", "vec_inner", "tup", "map", "map_e", "box_inner", "inner", "unite",
-                         "datae", "tage", "gen_inner", "pair", "optopt", "f64", "char"],
+                         "datae", "tage", "gen_inner", "pair", "optopt", "f64", "char", "deep", "vec_deep", "tree", "opt_tree"],
                         [[], ["skip"], ["flatten"], ["inline"], ["optional"], ["optional_nullable"], ["optional_ssi"], ["rename"], ["default"]],
                         tys2=("string", "opt_i32") if not q else ("string",))))
     sl.append(("S2", sc(["struct"], [], [[], ["rename"]], ["tuple", "newtype", "unit", "named0", "tuple0"], [], [],
